@@ -1,1 +1,58 @@
-fn main() {}
+//! C04 Every uplink follows the WARP link state machine; no fabricated frames.
+mod oracle;
+mod raw;
+mod simgram;
+
+use vcommon::{Ctx, Verdict};
+
+fn check_raw(case: &raw::Case) -> Verdict {
+    let obs = raw::execute(case);
+    if std::env::var("VERIF_DUMP").is_ok() {
+        for (i, r) in obs.remotes.iter().enumerate() {
+            eprintln!("remote {} id={} cap={} dropped={:?} reason={:?} eof={} sent:", i, r.id, r.out_cap, r.dropped_at, r.reason, r.eof);
+            for s in &r.sent {
+                eprintln!("    {:?}", s);
+            }
+            for (k, f) in r.frames.iter().enumerate() {
+                eprintln!("  frame{} {} {} {:?} body={:?}{}", k, f.seq, f.lane, f.kind, f.body_str(), if k + 1 == r.frames_at_checkpoint { "   <-- checkpoint" } else { "" });
+            }
+        }
+        for l in &obs.lanes {
+            eprintln!("lane {} {:?} closed={:?}", l.name, l.kind, l.closed_at);
+            for e in &l.emissions {
+                eprintln!("    emit q={} f={:?} target={:?} {:?}", e.queued, e.flushed, e.target, match &e.kind { raw::EmKind::Event(b) => format!("Event({:?})", String::from_utf8_lossy(b)), k => format!("{:?}", k) });
+            }
+            for (s, r) in &l.received {
+                eprintln!("    recv {} {:?}", s, r);
+            }
+        }
+        eprintln!("wakes {:?} settles {:?} bad_tags {:?} stop {:?} agent_end {:?} done_cp {} (cp {}) done_end {} result {:?}", obs.wakes, obs.settles, obs.bad_tag_ops, obs.stop_at, obs.agent_end_at, obs.done_at_checkpoint, obs.checkpoint_seq, obs.done_at_end, obs.result);
+    }
+    oracle::check(case, &obs)
+}
+
+fn main() {
+    let args: Vec<String> = std::env::args().skip(1).collect();
+    let mut ctx = Ctx::new("C04", &args);
+    ctx.rule(
+        "rawlane: the real agent runtime (AgentRouteTask::run_agent) around a harness Agent that opens 2-3 lanes (value / map / supply, \
+         transient or not) and lets the op list play them: lane reads its input, emits standard events / sync events / synced (only for \
+         sync requests it has received) with unique bodies, writes <= n bytes of its output, writes an invalid tag, closes; 1-4 remotes \
+         send link / sync / unlink / command in any order to existing and non-existing lanes, write <= n bytes, read <= n bytes, drop; \
+         stop trigger, agent end, inactivity and prune timeouts; channel capacities 1..4096 bytes. Every case ends with a drain to \
+         quiescence, then the agent is ended and everything is drained again. Non-trivial = at an instant where a remote's writer was \
+         provably lent out and parked on a full channel (a harness read woke an otherwise idle system) more link / lane-not-found answers \
+         or synced markers had been caused than had been written to that remote, i.e. a special action or synced marker was queued behind \
+         the busy writer. Distinct by the Debug form of the case.",
+    );
+    ctx.assume("the harness lanes obey the lane protocol: sync events and synced only for remote ids whose sync request the lane has read");
+    ctx.assume("single-threaded harness-owned schedule; paused clock; shutdown_timeout is never allowed to expire");
+    ctx.assume("a lane that merely closes its channels (no malformed output) is not counted as a failed lane: no unlinked is demanded for it before the agent stops");
+    let n = ctx.pick(60_000, 3_000_000);
+    let max_ops = ctx.pick(80, 200);
+    ctx.prop("rawlane", n, move || raw::arb_case(max_ops), check_raw);
+    let n = ctx.pick(40_000, 2_000_000);
+    let max_ops = ctx.pick(70, 200);
+    ctx.prop("simagent-grammar", n, move || simgram::arb_case(max_ops), simgram::check);
+    ctx.finish();
+}
